@@ -28,7 +28,8 @@ type lagSource struct {
 	want  bool
 	delay int
 	lag   int
-	short bool
+	short int // 0 full reads; 1 every slicing (1 byte / half / all) of the first `budget` reads; 2 always 1 byte; 3 always half
+	budget int
 }
 
 func (l *lagSource) Resume(c *savior.SourceCheckpoint) (int64, error) { return l.inner.Resume(c) }
@@ -62,11 +63,21 @@ func (l *lagSource) Read(p []byte) (int, error) {
 			return n, err
 		}
 	}
-	if l.short && len(p) > 1 {
-		switch rt.Choice("short-read", 3) {
-		case 0:
-			p = p[:1]
+	if len(p) > 1 {
+		switch l.short {
 		case 1:
+			if l.budget > 0 {
+				l.budget--
+				switch rt.Choice("short-read", 3) {
+				case 0:
+					p = p[:1]
+				case 1:
+					p = p[:(len(p)+1)/2]
+				}
+			}
+		case 2:
+			p = p[:1]
+		case 3:
 			p = p[:(len(p)+1)/2]
 		}
 	}
@@ -88,12 +99,16 @@ func (l *lagSource) ReadByte() (byte, error) {
 	return 0, io.ErrNoProgress
 }
 
-func newSource(data []byte, lag int, short bool) savior.Source {
+func newSource(data []byte, lag int, short int) savior.Source {
 	s := seeksource.FromBytes(data)
-	if lag == 0 && !short {
+	if lag == 0 && short == 0 {
 		return s
 	}
-	return &lagSource{inner: s, lag: lag, short: short}
+	budget := 6
+	if rt.HasParam("shortk") {
+		budget = rt.Param("shortk")
+	}
+	return &lagSource{inner: s, lag: lag, short: short, budget: budget}
 }
 
 type msg struct {
@@ -131,7 +146,7 @@ func H_frames() {
 		}
 		msgs = append(msgs, m)
 	}
-	save, lag, short := rt.Param("save"), rt.Param("lag"), rt.Param("short") == 1
+	save, lag, short := rt.Param("save"), rt.Param("lag"), rt.Param("short")
 
 	var buf bytes.Buffer
 	wc := wire.NewWriteContext(&buf)
